@@ -55,13 +55,13 @@ ASSUMPTIONS = [
     "touched as far as the generated values need them",
 ]
 BOUNDS = {
-    "quick": "list lengths 0..2, depth<=4, <=400 shapes per type, each under up to 12 rotations of the leaf values "
-             "(<=1600 cases per type), all 58 registry entries, all Annex F vectors, full schema diff",
+    "quick": "list lengths 0..2, depth<=4, <=400 shapes per type, each under up to 10 rotations of the leaf values "
+             "(<=1200 cases per type), all 58 registry entries, all Annex F vectors, full schema diff",
     "thorough": "list lengths 0..3, depth<=4, <=20000 shapes per type, each under up to 24 rotations of the leaf values "
-                "(<=60000 cases per type), all 58 registry entries, all Annex F vectors, full schema diff",
+                "(<=40000 cases per type), all 58 registry entries, all Annex F vectors, full schema diff",
 }
-TIERS = {"quick": {"max_list": 2, "budget": 400, "rotations": 12, "case_cap": 1600},
-         "thorough": {"max_list": 3, "budget": 20000, "rotations": 24, "case_cap": 60000}}
+TIERS = {"quick": {"max_list": 2, "budget": 400, "rotations": 10, "case_cap": 1200},
+         "thorough": {"max_list": 3, "budget": 20000, "rotations": 24, "case_cap": 40000}}
 
 PDU_CLASS = {"confirmed": A.ConfirmedRequestPDU, "complexack": A.ComplexAckPDU,
              "unconfirmed": A.UnconfirmedRequestPDU, "error": A.ErrorPDU}
@@ -823,32 +823,38 @@ def run_one(ctx, acc, cfg, target, size, index, rot, ordinal, seed):
     return v
 
 
+class Plan(object):
+    """the deterministic case list of one target, held as arithmetic: case k = (rotation k // shapes, shape k % shapes)"""
+
+    def __init__(self, ctx, cfg, seed, target):
+        mgr, filler = ctx.tier(cfg["max_list"], seed)
+        ts = mgr.type_space(target[0], cfg["budget"])
+        self.levels, self.complete, self.partial = ts.levels(cfg["budget"])
+        self.total = ts.total
+        self.shapes = sum(t for _, t, _ in self.levels)
+        n = max(1, self.shapes)
+        self.rots = max(1, min(cfg["rotations"], cfg["case_cap"] // n))
+        self.cases = self.shapes * self.rots
+
+    def case(self, k):
+        r, o = divmod(k, self.shapes)
+        s, i = G.TypeSpace.nth(self.levels, o)
+        return s, i, r, o
+
+
 def plan_for(ctx, cfg, seed, target):
-    """-> (cases [(size, index, rot, ordinal)], total shapes, planned shapes, partial)"""
-    mgr, filler = ctx.tier(cfg["max_list"], seed)
-    ts = mgr.type_space(target[0], cfg["budget"])
-    shapes, complete, partial = ts.plan(cfg["budget"])
-    n = max(1, len(shapes))
-    rots = max(1, min(cfg["rotations"], cfg["case_cap"] // n))
-    cases = []
-    for r in range(rots):
-        for o, (s, i) in enumerate(shapes):
-            cases.append((s, i, r, o))
-    return cases, ts.total, len(shapes), complete, partial
+    return Plan(ctx, cfg, seed, target)
 
 
-_CASES = {}
+_PLANS = {}
 
 
-def _cases_of(ctx, cfg, seed, target):
-    """the deterministic case list of one target (work packages carry only index ranges into it)"""
+def _plan_of(ctx, cfg, seed, target):
     key = (cfg["budget"], cfg["max_list"], seed, target)
-    c = _CASES.get(key)
-    if c is None:
-        if len(_CASES) > 8:
-            _CASES.clear()
-        c = _CASES[key] = plan_for(ctx, cfg, seed, target)[0]
-    return c
+    p = _PLANS.get(key)
+    if p is None:
+        p = _PLANS[key] = Plan(ctx, cfg, seed, target)
+    return p
 
 
 def shard(item, deadline):
@@ -859,12 +865,17 @@ def shard(item, deadline):
     ctx.loc_count = 0
     acc = Acc()
     done = 0
+    todo = sum(hi - lo for _, lo, hi in work)
     for target, lo, hi in work:
-        cases = _cases_of(ctx, cfg, seed, target)[lo:hi]
-        for (s, i, r, o) in cases:
+        plan = _plan_of(ctx, cfg, seed, target)
+        for k in range(lo, hi):
             if (done & 63) == 0 and time.time() > deadline:
-                acc.cap("deadline: enumeration stopped inside %s" % (target[0],))
+                acc.add_info("planned cases not run (deadline)", todo - done)
+                acc.cap("deadline reached before all planned cases were run: the work packages are ordered by rank inside "
+                        "their type, so what is missing are the last rotations / largest shapes of the big types; count "
+                        "under parts['planned cases not run (deadline)']")
                 return acc
+            s, i, r, o = plan.case(k)
             v = run_one(ctx, acc, cfg, target, s, i, r, o, seed)
             done += 1
             if done == 1:
@@ -907,7 +918,10 @@ def part_schema(ctx, acc):
     if extra:
         acc.info["in the tree but not in the transcription (not judged by oracle 2)"] = extra[:40]
     rev = ctx.schema.get("clause21_review", {})
-    acc.info["clause 21 deviations noted in the transcription"] = len(rev.get("deviations", []))
+    acc.info["clause 21 deviations noted in the transcription (kept as the tree has them, not judged)"] = [
+        "%s.%s" % (d["type"], d["element"]) for d in rev.get("deviations", [])]
+    acc.info["transcription carries the standard's value, not the unchanged tree's"] = [
+        "%s.%s %s: %r -> %r" % (d["type"], d["element"], d["field"], d["tree"], d["standard"]) for d in rev.get("corrected", [])]
 
 
 def annex_vector(ctx, vec):
@@ -1028,8 +1042,8 @@ def _determinism_probe(ctx, cfg, seed, tgts):
     def once():
         out = []
         for target in tgts:
-            cases, _, _, _, _ = plan_for(ctx, cfg, seed, target)
-            for (s, i, r, o) in cases[:4]:
+            plan = plan_for(ctx, cfg, seed, target)
+            for (s, i, r, o) in [plan.case(k) for k in range(min(4, plan.cases))]:
                 shape, v, filler = case_value(ctx, cfg["max_list"], seed, target[0], cfg["budget"], s, i, r, o)
                 obs = {}
                 try:
@@ -1057,21 +1071,24 @@ def run(tier, seed, deadline):
     part_annexf(ctx, acc)
     _determinism_probe(ctx, cfg, seed, tgts[::7])
 
-    # plan all targets, cut into work packages of about equal size, smallest shapes first inside each type
+    # plan all targets, cut into work packages of 250 cases; packages are taken rank by rank (first package of every
+    # type, then the second of every type, ...) so that a deadline cuts tails, never whole types
     packages = []
     capped = []
     n_shapes = n_cases = 0
-    for target in tgts:
-        cases, total, planned, complete, partial = plan_for(ctx, cfg, seed, target)
-        n_shapes += planned
-        n_cases += len(cases)
-        if partial is not None:
-            s, taken, card = partial
+    for t_index, target in enumerate(tgts):
+        plan = plan_for(ctx, cfg, seed, target)
+        n_shapes += plan.shapes
+        n_cases += plan.cases
+        if plan.partial is not None:
+            s, taken, card = plan.partial
             capped.append("%s: %s shapes in the bound; %s, size %d: %d of %d (evenly spaced)"
-                          % (target[0], total, ("sizes 0..%d complete" % complete) if complete >= 0 else "no size level complete",
+                          % (target[0], plan.total,
+                             ("sizes 0..%d complete" % plan.complete) if plan.complete >= 0 else "no size level complete",
                              s, taken, card))
-        for k in range(0, len(cases), 250):
-            packages.append((len(packages), target, k, min(k + 250, len(cases))))
+        for rank, k in enumerate(range(0, plan.cases, 250)):
+            packages.append((rank, t_index, target, k, min(k + 250, plan.cases)))
+    packages.sort(key=lambda p: (p[0], p[1]))
     acc.info["types enumerated (registry entries counted separately)"] = len(tgts)
     acc.info["service registry entries"] = sum(1 for t in tgts if t[1])
     acc.info["shapes planned"] = n_shapes
@@ -1081,11 +1098,13 @@ def run(tier, seed, deadline):
         acc.info["types cut by the per-type budget"] = capped
         acc.cap("%d of %d types have more shapes inside the bound than the per-type budget of %d shapes; covered prefix per "
                 "type under parts['types cut by the per-type budget']" % (len(capped), len(tgts), cfg["budget"]))
-    # interleave the packages over 64 shards so that every worker gets small and large types
-    nsh = 64
+    # consecutive chunks of the rank-ordered package list: the pool hands them out in order, so low ranks run first
+    # whatever the number of workers, and a deadline leaves only the highest ranks undone
+    nsh = max(16, min(256, len(packages) // 6))
+    per = (len(packages) + nsh - 1) // nsh
     items = []
-    for k in range(nsh):
-        work = [(t, lo, hi) for (n, t, lo, hi) in packages if n % nsh == k]
+    for k in range(0, len(packages), max(1, per)):
+        work = [(t, lo, hi) for (rank, ti_, t, lo, hi) in packages[k:k + per]]
         if work:
             items.append((tier, seed, work))
     run_shards(shard, items, deadline, into=acc)
